@@ -82,7 +82,19 @@ func infra(format string, a ...interface{}) {
 	os.Exit(3)
 }
 
-func enabledFor(n *bfsNode, op string) bool {
+// oddLevels: ID-dimension additions are applied in states at BFS distance < oddLevels
+// from the post-boot state (the follow-up ops use the remaining depth).
+func oddLevels(c *fw.Ctx) int {
+	if c.Thorough() {
+		return 5
+	}
+	return 3
+}
+
+func enabledFor(n *bfsNode, op string, level, oddLv int) bool {
+	if isOddId(op) && level >= oddLv {
+		return false
+	}
 	m := refGroups{list: make([]*types.Group, n.listLen), oddUsed: n.odd}
 	return m.enabled(op)
 }
@@ -119,6 +131,7 @@ func search(c *fw.Ctx) {
 	debug.SetMemoryLimit(400 << 20)
 	boot()
 	depth := depthOf(c)
+	oddLv := oddLevels(c)
 	designated := c.Mine(0) // exactly one worker accounts for the shared levels
 
 	root := runHistory(nil, 0)
@@ -146,7 +159,7 @@ func search(c *fw.Ctx) {
 	nodes:
 		for _, n := range level {
 			for oi, op := range alphabet {
-				if !enabledFor(&n, op) {
+				if !enabledFor(&n, op, L, oddLv) {
 					continue
 				}
 				if c.Expired() {
@@ -199,7 +212,7 @@ func search(c *fw.Ctx) {
 				if r.Dead {
 					// a panic inside an op may leave process-global resources (the joined-group
 					// LevelDB lock) behind; find out whether a fresh instance is still possible
-					if err := resetToPristine(); err != nil {
+					if err := freshInstance(); err != nil {
 						c.Cap("a panic inside " + op + " made the worker's group chain unusable; rest of its share not explored")
 						poisoned = true
 						break nodes
@@ -209,6 +222,15 @@ func search(c *fw.Ctx) {
 				if last.Forbidden != "" {
 					// no list can satisfy the statement any more (the chain now contains a fork
 					// or a cycle); reported above, not expanded further
+					continue
+				}
+				if r.OddListed != "" && len(r.Fails) > 0 {
+					// an ID-dimension group is listed and a clause fails: reported when it was
+					// introduced; what follows are consequences of that addition (typically a
+					// restart that cannot load the last group), not expanded further
+					if account {
+						c.Count("id_dimension_states_not_expanded", 1)
+					}
 					continue
 				}
 				if _, ok := visited[r.Key]; ok {
@@ -235,6 +257,7 @@ func search(c *fw.Ctx) {
 	}
 	if designated {
 		c.Note("depth", depth)
+		c.Note("id_dimension_levels", oddLv)
 		c.Note("alphabet", strings.Join(alphabet, " "))
 		c.Note("fresh_instance", "in-process: group store + side index rewritten to the post-boot content, memory mirror reset, whole image byte-compared with the post-boot image before every history; validated once per worker against wipe + first-boot initialisation")
 	}
@@ -297,7 +320,7 @@ func main() {
 	fw.Main(fw.Check{
 		ID: "C19", Level: "model_checking",
 		Rule: "BFS over histories of {add alt0, add alt1, add wrong-PreGroup, add missing-parent, add duplicate-id, remove-last, fork-switch-remove-2, restart} " +
-			"plus at most one accepted addition per history from the ID dimension {Id = height key of height 0 / last / next / next+1, Id = last-pointer key, Id = count key, Id = genesis id, empty Id, 1-byte Id; otherwise valid} on the real group chain, " +
+			"plus at most one accepted addition per history, applied in a state at BFS distance < 3 (quick) / 5 (thorough), from the ID dimension {Id = height key of height 0 / last / next / next+1, Id = last-pointer key, Id = count key, Id = genesis id, empty Id, 1-byte Id; otherwise valid} on the real group chain, " +
 			"depth 6 (quick) / 10 (thorough); each transition = fresh instance + replay + one op, merged on the canonical dump of store+side index+memory; " +
 			"a case is a (distinct implementation state, enabled op) pair; non-trivial = source state is not the post-boot state (at least one earlier op)",
 		Assumptions: []string{
@@ -305,6 +328,7 @@ func main() {
 			"restart = re-running initGroupChain over the same open LevelDB instance (VerifGroupReinit); crash points are a separate part",
 			"fresh instance = group store prefix, groupIndex table and the chain object's two fields (count, last group) restored to the post-boot image inside the worker process; byte-identity of the whole image is verified before every history and every prefix replay must reproduce the stored state key",
 			"model takes the accept/reject decision of valid, missing-parent and ID-dimension additions from the implementation (whatever is accepted becomes a list element and must satisfy every clause, also after restart); accepted wrong-PreGroup / duplicate-id additions are violations",
+			"ID dimension: a state in which a clause fails while the ID-dimension group is listed is reported and not expanded further",
 			"ID dimension: the store layout (last-pointer key, count key, 8-byte big-endian height keys) is stated in the check and verified against the real post-boot store; at most one accepted ID-dimension addition per history",
 			"remove-last is applied only while a non-genesis group is listed (the fork switch never removes the genesis group)",
 			"sqlite side index: only 'operations succeed' and its row set as part of the state key",
